@@ -341,6 +341,13 @@ pub fn witness() -> Option<String> {
     }
 }
 
+/// `borrowed`: also build descriptions from leaked `'static` slices (not used by the fuzz target,
+/// where the leak would accumulate over millions of executions).
+pub fn case_strategy(borrowed: bool) -> impl Strategy<Value = Case> {
+    (iface_strategy(CFG), prop_oneof![4 => Just(Form::Owned), 1 => Just(Form::Borrowed), 3 => Just(Form::Parsed)], layout_strategy())
+        .prop_map(move |(iface, form, layout)| Case { iface, form: if !borrowed && matches!(form, Form::Borrowed) { Form::Owned } else { form }, layout })
+}
+
 pub fn run(ctx: &Ctx) -> i32 {
     let known: Vec<Known> = load_known("C14");
     let listed = known.iter().find(|k| k.sig == SIG_KNOWN).cloned();
@@ -353,11 +360,7 @@ pub fn run(ctx: &Ctx) -> i32 {
         _ => {}
     }
     let (shards, cases) = ctx.tier.pick((16, 3200), (64, 12_000));
-    let strat = || {
-        (iface_strategy(CFG), prop_oneof![4 => Just(Form::Owned), 1 => Just(Form::Borrowed), 3 => Just(Form::Parsed)], layout_strategy())
-            .prop_map(|(iface, form, layout)| Case { iface, form, layout })
-    };
-    let (mut stats, v1) = run_shards(ctx, "random", shards, cases, strat, check_case);
+    let (mut stats, v1) = run_shards(ctx, "random", shards, cases, || case_strategy(true), check_case);
     viol.extend(v1);
     // the library's own description of org.varlink.service
     stats.eval();
